@@ -7,6 +7,7 @@ import Drivers.StakingD
 import Drivers.PayoutD
 import Drivers.MintD
 import Drivers.UbdD
+import Drivers.ReimbD
 import Drivers.WasmD
 import Drivers.BlockhashD
 /-
@@ -1036,6 +1037,15 @@ partial def loop (hIn : IO.FS.Stream) (ds : DS) : IO DS := do
         let mut ds := { ds with h := J.intOf j "h" }
         for k in r.stats do ds := stat ds ("sit." ++ k)
         ds := { ds with stats := bump ds.stats "tx.ubdq.ok" 1 }
+        for (kind, props, name, detail) in r.findings do
+          ds ← finding ds kind props name detail
+        pure ds
+      | "reimb" => do
+        -- C04/C02/C03/C08: one call of the real CreateReimbursement at a chosen utilisation of the collateral (profile "reimburse")
+        let r := ReimbD.check j
+        let mut ds := { ds with h := J.intOf j "h" }
+        for k in r.stats do ds := stat ds ("sit." ++ k)
+        ds := { ds with stats := bump ds.stats (if J.has j "skipped" then "tx.reimb.skipped" else "tx.reimb.ok") 1 }
         for (kind, props, name, detail) in r.findings do
           ds ← finding ds kind props name detail
         pure ds
